@@ -2,9 +2,12 @@ SPECIFICATION Spec
 CONSTANTS
   MaxParams = 3
   MaxPos = 3
-  MaxKw = 2
+  MaxKw = 3
+  Hazard = {"self", "logger", "action_type", "_serializers", "result", "fields", "args", "kwargs", "_call"}
   MaxHaz = 1
-  Hazard = {"self", "logger", "action_type", "_serializers", "result", "fields", "args", "kwargs"}
+  HazParams = 2
+  HazPos = 2
+  HazKw = 2
   Extra = {"zz", "logger"}
   FullOptParams = 1
   FullOptKw = 1
